@@ -191,8 +191,18 @@ def run(ctx: Ctx):
                 okp = c.func.attr == "append" and all(isinstance(e_, ast.Call) and dotted(e_.func) in ("partial", "functools.partial") for e_ in els)
                 ctx.ob("R-C15-3", f"annotate.SpanUpdater.__init__/updaters-element:{c.lineno - init.lineno}", okp,
                        f"every element stored in the updaters list is partial(<callable>): `{norm(c)[:60]}`", node=c, mod=am, nontrivial=False)
+        stored_partials = []
         for c in walk_local(init):
-            if isinstance(c, ast.Call) and dotted(c.func) in ("partial", "functools.partial") and c.args:
+            if isinstance(c, ast.Call) and isinstance(c.func, ast.Attribute) and norm(c.func.value) in ups and c.args:
+                el = c.args[-1]
+                els = [el]
+                if isinstance(el, ast.Name):
+                    els = [x.value for x in stmts_local(init.body) if isinstance(x, ast.Assign) and any(norm(t) == el.id for t in x.targets)] or [el]
+                stored_partials += [id(e_) for e_ in els]
+        for c in walk_local(init):
+            # only the partial objects that are stored as updaters (a partial used for something else, e.g. to pre-configure the differ,
+            # is an ordinary call and is followed through the call graph)
+            if isinstance(c, ast.Call) and dotted(c.func) in ("partial", "functools.partial") and c.args and id(c) in stored_partials:
                 f0 = c.args[0]
                 n_upd += 1
                 if isinstance(f0, ast.Lambda):
@@ -207,6 +217,44 @@ def run(ctx: Ctx):
                     pure, what = False, norm(f0)[:30]
                 ctx.ob("R-C15-3", f"annotate.SpanUpdater.__init__/updater:{what}:{n_upd}", pure, "offset updaters (the callables stored by partial) are pure", node=c, mod=am,
                        nontrivial=False)
+
+    # ---- R-C15-6 memoising decorators ----------------------------------------------
+    # functools.lru_cache / cache keep results across calls, keyed by *equality* of the arguments.  That is invisible only if (a) equal
+    # arguments are indistinguishable -- builtin immutable values; two citations are equal when volume/reporter/page agree although their
+    # metadata differ --, (b) the function is pure, (c) the cached object cannot be changed by whoever receives it
+    from ..external import classify as _classify, origin_of as _origin_of
+
+    IMMUT = {"str", "int", "bool", "float", "bytes", "None", "Pattern", "re.Pattern", "frozenset", "FrozenSet", "tuple", "Tuple", "Optional", "Union",
+             "typing.Pattern", "Pattern[str]", "re.Pattern[str]", "Type", "type"}
+
+    def _immutable_ann(a):
+        if a is None:
+            return False
+        names = [x.id for x in ast.walk(a) if isinstance(x, ast.Name)] + [x.attr for x in ast.walk(a) if isinstance(x, ast.Attribute)] + \
+                [str(x.value) for x in ast.walk(a) if isinstance(x, ast.Constant)]
+        return bool(names) and all(x in IMMUT or x == "re" or x == "typing" or x == "Ellipsis" for x in names)
+
+    n_memo = 0
+    for q, fs in eff.funcs.items():
+        for d in fs.node.decorator_list:
+            base = d.func if isinstance(d, ast.Call) else d
+            if _classify(_origin_of(fs.mod.imports, base)) != "memo":
+                continue
+            n_memo += 1
+            a = fs.node.args
+            params = [p for p in a.posonlyargs + a.args + a.kwonlyargs if p.arg not in ("self", "cls")]
+            bad = [p.arg for p in params if not _immutable_ann(p.annotation)]
+            selfish = any(p.arg in ("self", "cls") for p in a.posonlyargs + a.args)
+            ctx.ob("R-C15-6", f"{q}/memo-key", not bad and not selfish and not a.vararg and not a.kwarg,
+                   f"`@{norm(base)}` keys its cache by equality of the arguments: every parameter must be annotated with a builtin immutable type "
+                   f"(not so: {bad or ('self' if selfish else '*args')}); equal eyecite objects (citations compare by volume/reporter/page) can differ in "
+                   "what the function reads, so a later call would get an earlier call's result", node=fs.node, mod=fs.mod)
+            ctx.ob("R-C15-6", f"{q}/memo-pure", not eff.tw[q] and not fs.unknown_calls,
+                   f"a memoised function must be pure (write-set {sorted(map(str, eff.tw[q]))[:3]}, unresolved calls {len(fs.unknown_calls)})", node=fs.node, mod=fs.mod)
+            ctx.ob("R-C15-6", f"{q}/memo-result", _immutable_ann(fs.node.returns),
+                   f"the cached result is shared by every caller, so it must be immutable (declared return type: {norm(fs.node.returns) if fs.node.returns else 'none'})",
+                   node=fs.node, mod=fs.mod)
+    ctx.ob("R-C15-6", "package/memo-decorators", True, f"{n_memo} function(s) wrapped in functools.lru_cache/cache", node=None, mod=repo.mod("utils"), nontrivial=False)
 
     # ---- R-C15-1 set order -----------------------------------------------------
     n_uses = 0
@@ -272,7 +320,10 @@ def run(ctx: Ctx):
         for n in nodes:
             if isinstance(n, ast.Call):
                 d = dotted(n.func) or ""
-                if any(d == p.rstrip(".") or d.startswith(p) for p in AMBIENT_PREFIXES):
+                from ..external import classify, origin_of
+
+                org = origin_of(mod.imports, n.func)  # `from time import time as now; now()` -> time.time
+                if any(d == p.rstrip(".") or d.startswith(p) for p in AMBIENT_PREFIXES) or classify(org) == "ambient":
                     key = next((k for k in AMBIENT_ALLOWED if k[0] == mod.name and k[1] == body_owner and k[2] == norm(n)), None)
                     ctx.ob("R-C15-4", f"{body_owner}/ambient:{norm(n)[:30]}", key is not None,
                            AMBIENT_ALLOWED[key] if key else "ambient input (clock / randomness / environment) on the extraction path",
@@ -305,12 +356,37 @@ def run(ctx: Ctx):
     ctx.floor("R-C15-4", 2)
 
 
+def _key_use(x: ast.AST) -> bool:
+    """is expression `x` used only as an identity key: subscript index, dict key, membership / equality operand, set.add / dict.get / setdefault
+    argument -- contexts in which only equality of the value matters (id() of live objects is injective), never its magnitude"""
+    par = getattr(x, "parent", None)
+    if isinstance(par, ast.Subscript) and par.slice is x:
+        return True
+    if isinstance(par, ast.DictComp) and par.key is x:
+        return True
+    if isinstance(par, ast.Dict) and x in par.keys:
+        return True
+    if isinstance(par, ast.Compare) and all(isinstance(o, (ast.In, ast.NotIn, ast.Eq, ast.NotEq, ast.Is, ast.IsNot)) for o in par.ops):
+        return True
+    if isinstance(par, ast.Call) and isinstance(par.func, ast.Attribute) and par.func.attr in ("add", "discard", "get", "setdefault", "__contains__") and par.args and par.args[0] is x:
+        return True
+    if isinstance(par, ast.Tuple):
+        return _key_use(par)
+    if isinstance(par, ast.Assign) and len(par.targets) == 1 and isinstance(par.targets[0], ast.Name) and par.value is x:
+        name = par.targets[0].id
+        fn = par
+        while fn is not None and not isinstance(fn, (ast.FunctionDef, ast.AsyncFunctionDef, ast.Lambda)):
+            fn = getattr(fn, "parent", None)
+        if fn is None:
+            return False
+        loads = [y for y in ast.walk(fn) if isinstance(y, ast.Name) and y.id == name and isinstance(y.ctx, ast.Load)]
+        stores = [y for y in ast.walk(fn) if isinstance(y, ast.Name) and y.id == name and isinstance(y.ctx, ast.Store)]
+        return len(stores) == 1 and bool(loads) and all(_key_use(y) for y in loads)
+    return False
+
+
 def _id_only_as_key(n: ast.Call) -> bool:
     par = getattr(n, "parent", None)
-    if isinstance(par, ast.Subscript) and par.slice is n:
-        return True
-    if isinstance(par, ast.DictComp) and par.key is n:
-        return True
     if isinstance(par, ast.Return):
         return True
-    return False
+    return _key_use(n)
